@@ -1,5 +1,5 @@
 import CookModel.Lemmas.RoundtripStep
-import CookModel.Lemmas.RoundtripShort
+import CookModel.Lemmas.RoundtripInter
 /-
   C01, step layer with all component forms: `parse_step` on a concatenation of text runs,
   ingredient / cookware spellings (braces and single-word form) and timers emits one event per
@@ -22,6 +22,8 @@ inductive SegX where
   | ingredient1 (c : AComp)
   /-- `#pan` -/
   | cookware1 (c : AComp)
+  /-- `@&(~1)dough{}` -/
+  | ingredientI (pre post : List TK) (i : AInter) (ip : IPad) (c : AComp) (p : CPad)
 
 def SegX.spell : SegX → List Tok
   | .text l => l
@@ -30,6 +32,7 @@ def SegX.spell : SegX → List Tok
   | .timer c p => spellTimer c p
   | .ingredient1 c => spellShortIngredient c
   | .cookware1 c => spellShortCookware c
+  | .ingredientI pre post i ip c p => spellIngredientI pre post i ip c p
 
 /-- a segment on its own (as `Seg.ok`, plus the side conditions of timers and of the single-word form) -/
 def SegX.ok (cs : CharSpec) (e : Ext) : SegX → Bool
@@ -39,6 +42,7 @@ def SegX.ok (cs : CharSpec) (e : Ext) : SegX → Bool
   | .timer c p => c.wf cs e && p.ok cs
   | .ingredient1 c => c.wfShort cs e
   | .cookware1 c => c.wfShortCookware cs e
+  | .ingredientI pre post i ip c p => wfInter cs e pre post i c && ip.ok cs && p.ok cs
 
 /-- a segment and what follows it: two text runs do not touch; a braces component without note
     and a timer are not followed by `(`; a single-word component is followed as `shortRestOK` says
@@ -51,6 +55,7 @@ def SegX.followOK : SegX → List SegX → Bool
   | .timer _ _, rest => noParenNext (rest.flatMap SegX.spell)
   | .ingredient1 c, rest => shortRestOK c (rest.flatMap SegX.spell)
   | .cookware1 c, rest => shortRestOK c (rest.flatMap SegX.spell)
+  | .ingredientI _ _ _ _ c _, rest => restOK c (rest.flatMap SegX.spell)
 
 def segsXOK (cs : CharSpec) (e : Ext) : List SegX → Bool
   | [] => true
@@ -64,6 +69,7 @@ def SegXEv (cs : CharSpec) : SegX → Ev α → Prop
   | .timer c _, .timer t => TimerMatches cs c t.val
   | .ingredient1 c, .ingredient i => IngrMatches cs c i.val
   | .cookware1 c, .cookware i => CwMatches cs c i.val
+  | .ingredientI pre post i _ c _, .ingredient ing => IngrMatchesI cs (pre ++ .and :: post) i c ing.val
   | _, _ => False
 
 /-- one event per segment, in order -/
@@ -124,6 +130,27 @@ theorem stepOne_cookware1 (c : AComp) (s : BP α) (hwf : c.wfShortCookware s.cs 
   refine ⟨⟨cw, ⟨offAt s.toks A.length, offAt s.toks (A.length + ts.length)⟩⟩, ?_, hm⟩
   unfold stepOne
   simp only [bind, StateT.bind, h1, hts, List.cons_append, List.head?_cons, Option.map_some, htmk, tk,
+    withRecover_run, hrunI, Option.isNone_some, Bool.false_eq_true, if_false, pushEv_run]
+
+theorem inter_head {pre post : List TK} {i : AInter} {ip : IPad} {c : AComp} {p : CPad} {ts : List Tok}
+    (hs : Spells ts (spellIngredientI pre post i ip c p)) : ∃ tm r, ts = tm :: r ∧ tm.kind = .at := by
+  simp only [spellIngredientI, List.append_assoc, List.cons_append, List.nil_append] at hs
+  obtain ⟨tm, r, rfl, hk, -, -⟩ := hs.cons_inv
+  exact ⟨tm, r, rfl, hk⟩
+
+theorem stepOne_ingredientI (pre post : List TK) (i : AInter) (ip : IPad) (c : AComp) (p : CPad) (s : BP α)
+    (hwf : wfInter s.cs s.ext pre post i c = true) (hip : ip.ok s.cs = true) (hp : p.ok s.cs = true)
+    (A ts rest : List Tok) (hs : Spells ts (spellIngredientI pre post i ip c p)) (ht : s.toks = A ++ (ts ++ rest))
+    (hc : s.cur = A.length) (hrest : restOK c rest = true) (hrun : RunAt (baseOff s.toks) s.toks) :
+    ∃ ing : Loc (PIngredient α),
+      stepOne s = ((), { s with cur := A.length + ts.length, evs := s.evs.push (.ingredient ing) }) ∧
+      IngrMatchesI s.cs (pre ++ .and :: post) i c ing.val := by
+  obtain ⟨ing, hrunI, hm⟩ := rt_ingredientP_inter pre post i ip c p s hwf hip hp A ts rest hs ht hc hrest hrun
+  obtain ⟨tm, r, hts, htmk⟩ := inter_head hs
+  have h1 := peekK_split s A (ts ++ rest) ht hc
+  refine ⟨⟨ing, ⟨offAt s.toks A.length, offAt s.toks (A.length + ts.length)⟩⟩, ?_, hm⟩
+  unfold stepOne
+  simp only [bind, StateT.bind, h1, hts, List.cons_append, List.head?_cons, Option.map_some, htmk,
     withRecover_run, hrunI, Option.isNone_some, Bool.false_eq_true, if_false, pushEv_run]
 
 /-! ### conditions on what follows depend on kinds only -/
@@ -188,6 +215,7 @@ theorem segX_head_marker {seg : SegX} {tsg : List Tok} (hs : Spells tsg seg.spel
   | timer c p => obtain ⟨tm, r, h, hk⟩ := timer_head hs; exact ⟨tm, r, h, by rw [hk]; rfl⟩
   | ingredient1 c => obtain ⟨tm, r, h, hk⟩ := short_head hs; exact ⟨tm, r, h, by rw [hk]; rfl⟩
   | cookware1 c => obtain ⟨tm, r, h, hk⟩ := short_head hs; exact ⟨tm, r, h, by rw [hk]; rfl⟩
+  | ingredientI pre post i ip c p => obtain ⟨tm, r, h, hk⟩ := inter_head hs; exact ⟨tm, r, h, by rw [hk]; rfl⟩
 
 /-- the step loop over a list of segments: one event per segment, in order, nothing else -/
 theorem stepLoop_segsX : ∀ (segs : List SegX) (fuel : Nat) (s : BP α) (A tsegs : List Tok),
@@ -312,6 +340,14 @@ theorem stepLoop_segsX : ∀ (segs : List SegX) (fuel : Nat) (s : BP α) (A tseg
         (shortRestOK_transfer hrest hfol) hrun
       obtain ⟨tm, r, hts, -⟩ := short_head hseg
       exact key (.cookware i) (by rw [hts]; simp) hstep hm
+    | ingredientI pre post i ip c p =>
+      simp only [SegX.ok, Bool.and_eq_true] at hsok
+      simp only [SegX.spell] at hseg
+      simp only [SegX.followOK] at hfol
+      obtain ⟨ing, hstep, hm⟩ := stepOne_ingredientI pre post i ip c p s hsok.1.1 hsok.1.2 hsok.2 A tseg trest hseg ht hc
+        (restOK_transfer hrest hfol) hrun
+      obtain ⟨tm, r, hts, -⟩ := inter_head hseg
+      exact key (.ingredient ing) (by rw [hts]; simp) hstep hm
 
 theorem rt_parseStepX (segs : List SegX) (s : BP α) (ts : List Tok) (hs : Spells ts (segs.flatMap SegX.spell))
     (ht : s.toks = ts) (hc : s.cur = 0) (hrun : RunAt (baseOff ts) ts) (hok : segsXOK s.cs s.ext segs = true) :
